@@ -221,8 +221,8 @@ def ascAdtsHeader (c : Cfg) (a : Asc) (payloadSize : Nat) : Bytes :=
   let idx := if a.extSampleRate > 0 then a.extSamplingIndex else a.samplingIndex
   adtsHeader c (a.objectType + 255) idx a.channelConfig payloadSize    -- asc.ObjectType-1 in uint8
 
-/-- aacPacketizer.Packetize; `asc = none` models `ap.audioSps == nil` (prepareAsc failed):
-    nil-pointer dereference in ToAdtsHeader → `none` -/
+/-- aacPacketizer.Packetize; `asc = none` models `ap.audioSps == nil` (prepareAsc failed): the
+    frame is rejected with an error and nothing is handed to the writer → `none` -/
 def audioFrame (c : Cfg) (asc : Option Asc) (ptsNs : Int) (payload : Bytes) : Option Frame :=
   match asc with
   | none => none
@@ -256,7 +256,7 @@ deriving Repr
 def packetize (c : Cfg) (m : Meta) (f : AvFrame) : Option (Option Frame) :=
   match f.media with
   | .video => (videoFrame c m.sps m.pps f.dtsNs f.ptsNs f.payload).map some
-  | .audio => (audioFrame c m.asc f.ptsNs f.payload).map some
+  | .audio => some (audioFrame c m.asc f.ptsNs f.payload)
   | .other => some none
 
 /-- Muxer.process over a queue of frames into a FrameWriter that is an mpegts.Writer.
